@@ -17,7 +17,7 @@ ASSUMPTIONS = ["-k feedback is judged only when no written-back hydrogen lies wi
                "counted as inconclusive"]
 TIMEOUT = {"quick": 1800, "thorough": 10800}
 EDITS = ("ignorable", "hydrogens-own", "hydrogens-random", "records", "columns", "truncate",
-         "protonate-all", "keep-protons-feedback")
+         "protonate-all", "keep-protons-feedback", "hydrogens-random+protonate-all", "ignorable+records+columns")
 IGNORABLE = ("HOH", "H2O", "SO4", "PO4", "PEG", "EPE", "TRS")
 
 
@@ -197,6 +197,15 @@ def run_case(case, tier):
         new, touched, added = edit_columns(recs, rng)
     elif edit == "truncate":
         new, touched, added = edit_truncate(recs, rng)
+    elif edit == "hydrogens-random+protonate-all":
+        # input hydrogens (off the ideal positions) must stay without effect under --protonate-all too
+        new, touched, added = edit_hydrogens_random(recs, rng)
+        opts, exact_text, tol = ["--protonate-all"], False, 1e-7
+    elif edit == "ignorable+records+columns":
+        new, t1, a1 = edit_ignorable(recs, rng)
+        new, t2, a2 = edit_records(new, rng)
+        new, t3, a3 = edit_columns(new, rng)
+        touched, added = t1 + t2 + t3, a1 + a2 + a3
     elif edit == "protonate-all":
         new, opts, exact_text, tol = recs, ["--protonate-all"], False, 1e-7
         touched = nlines
